@@ -8,7 +8,7 @@
 EXTENDS Reference, TLC
 CONSTANTS L, Alphabet
 VARIABLES str, done
-Init == str \in UNION { [1..n -> Alphabet] : n \in 0..L } /\ done = FALSE
+Init == (\E n \in 0..L : str \in [1..n -> Alphabet]) /\ done = FALSE
 Next == ~done /\ done' = TRUE /\ UNCHANGED str
 
 Cps(s) == s
